@@ -299,6 +299,42 @@ def gen_B_ties(extra):
                     yield {"sp": "B-ties", "m": [list(m) for m in meas], "ts": [[0, 1, 4]], "ev": ev, "ties": ties}
 
 
+# spellings of one sounding pitch (a tie joins notes of one sounding pitch, whatever their spelling: G#4 tied to Ab4
+# where the key changes, B#3 tied to C4), with a lower and an upper neighbour pitch that shares its letter (and, for
+# B#3 / C4, its octave number) with one of the spellings
+ENHARMONIC_SETS = [
+    {"spell": [["G", 1, 4], ["A", -1, 4]], "lower": ["G", None, 4], "upper": ["A", None, 4]},
+    {"spell": [["B", 1, 3], ["C", None, 4], ["D", -2, 4]], "lower": ["B", None, 3], "upper": ["D", -1, 4]},
+]
+
+
+def gen_B_enharmonic(k, companions):
+    """ties between differently spelled notes of one sounding pitch.  Three 1/4 measures (grid of eighths), chains of
+    k contiguous notes (durations 1-2 units, each inside a measure) of one sounding pitch, every assignment of voices
+    {1,2} and every non-empty subset of tie links (as B1) x every assignment of the spellings of the pitch to the notes
+    (ENHARMONIC_SETS: G#4/Ab4, B#3/C4/Dbb4; the assignments with one spelling throughout are the class of B1 and kept
+    as the control); companions=True: also with a second chain of the same spans, voices and tie links (a chord tied to
+    a chord) a semitone lower / higher, spelled with the letter of one of the spellings throughout."""
+    meas = [(0, 2), (2, 4), (4, 6)]
+    for ch in _chains(meas, kmax=k):
+        if len(ch) != k:
+            continue
+        for voices in product((1, 2), repeat=k):
+            for flags in product((0, 1), repeat=k - 1):
+                if not any(flags):
+                    continue
+                ties = [[i, i + 1] for i, f in enumerate(flags) if f]
+                for es in ENHARMONIC_SETS:
+                    for sp in product(es["spell"], repeat=k):
+                        for comp in ((None, "lower", "upper") if companions else (None,)):
+                            ev = [["n", s, e, v, v, list(p)] for (s, e), v, p in zip(ch, voices, sp)]
+                            tt = [list(t) for t in ties]
+                            if comp is not None:
+                                ev += [["n", s, e, v, v, list(es[comp])] for (s, e), v in zip(ch, voices)]
+                                tt += [[i + k, j + k] for i, j in ties]
+                            yield {"sp": "B-enharmonic", "m": [list(m) for m in meas], "ts": [[0, 1, 4]], "ev": ev, "ties": tt}
+
+
 def gen_B_chordties():
     """two simultaneous chains (a chord tied to a chord) in one voice over a barline; the second chain's
     first or second note may be one unit longer/shorter (unequal chord: the longer note is moved)"""
